@@ -99,6 +99,61 @@ def sharing_sequences(arity: int) -> list[tuple[str, list]]:
             st[3] = P.DEFAULT
         seq.append(tuple(st))
     out.append(("five-statements", seq))
+    # LRU stress: a statement that hits the OLDEST resident entry and then misses twice, with tables that hold
+    # exactly one statement's needs (tight presets): the hit must protect the entry from the following misses
+    def iri2(nstag: str, local: str) -> tuple:
+        return ("iri", sstr(Atom(nstag + ".scheme", nosep=True), "/", Atom(nstag + ".path", nosep=True), "#", Atom(local + ".local", nosep=True)))
+
+    fill = [iri2("P1", "n1"), iri2("P2", "n2"), iri2("P3", "n3")]
+    hit_then_miss = [iri2("P1", "n1"), iri2("P4", "n4"), iri2("P5", "n5")]
+    again = [iri2("P1", "n1"), iri2("P4", "n4"), iri2("P6", "n6")]
+    if arity == 4:
+        fill.append(iri2("P3", "n3b"))
+        hit_then_miss.append(iri2("P5", "n5b"))
+        again.append(iri2("P6", "n6b"))
+    out.append(("lru-stress-prefix-name", [tuple(fill), tuple(hit_then_miss), tuple(again), tuple(fill)]))
+    # partially filled table, then a statement that hits the oldest entry and fills the table up
+    part = [iri2("Q1", "m1"), iri2("Q1", "m1"), iri2("Q1", "m1")]
+    grow = [iri2("Q1", "m1"), iri2("Q2", "m2"), iri2("Q3", "m3")]
+    more = [iri2("Q1", "m1"), iri2("Q4", "m4"), iri2("Q2", "m2")]
+    if arity == 4:
+        part.append(iri2("Q1", "m1"))
+        grow.append(iri2("Q3", "m3"))
+        more.append(iri2("Q2", "m2"))
+    out.append(("lru-stress-fill-mid-statement", [tuple(part), tuple(grow), tuple(more), tuple(grow)]))
+    # datatypes: churn through more datatypes than a tight table holds, then reuse evicted ones
+    def lit(tag: str, dt: str) -> tuple:
+        return ("lit", sstr(Atom(tag + ".lex", nonempty=None)), None, sstr(Atom(dt + ".dt")))
+
+    churn = []
+    for i, dt in enumerate(["DA", "DB", "DA", "DC", "DB", "DA", "DC"]):
+        st = base(f"c{i}", arity)
+        st[2] = lit(f"c{i}", dt)
+        churn.append(tuple(st))
+    out.append(("datatype-churn", churn))
+    # generalized: typed literals in s, p, o of one statement (hit on the oldest datatype, then misses)
+    g1 = [lit("x1", "DA"), lit("x2", "DB"), lit("x3", "DC")]
+    g2 = [lit("y1", "DA"), lit("y2", "DD"), lit("y3", "DE")]
+    g3 = [lit("z1", "DA"), lit("z2", "DD"), lit("z3", "DF")]
+    if arity == 4:
+        g1.append(P.t_iri("gg"))
+        g2.append(P.t_iri("gg"))
+        g3.append(P.t_iri("gg"))
+    out.append(("lru-stress-datatypes-generalized", [tuple(g1), tuple(g2), tuple(g3), tuple(g1)]))
+    # two different quoted triples in a row that share terms position by position
+    qa = P.t_triple(P.t_iri("k.s"), P.t_iri("k.p"), P.t_iri("k.o1"))
+    qb = P.t_triple(P.t_iri("k.s"), P.t_iri("k.p"), P.t_iri("k.o2"))
+    s1 = list(base("k", arity)); s1[2] = qa
+    s2 = list(base("k2", arity)); s2[2] = qb
+    s3 = list(base("k3", arity)); s3[0] = qb
+    out.append(("consecutive-quoted-triples-sharing-terms", [tuple(s1), tuple(s2), tuple(s3), tuple(s1)]))
+    # IRIs without any separator right after prefixed IRIs (empty prefix vs "same prefix")
+    u1 = [P.t_iri("v.s"), ("iri", "urn:isbn:1"), ("iri", sstr(Atom("mail.whole", nosep=True)))]
+    u2 = [("iri", "urn:isbn:2"), P.t_iri("v.p"), ("iri", "urn:isbn:1")]
+    if arity == 4:
+        u1.append(("iri", "urn:g"))
+        u2.append(P.t_iri("v.g"))
+    out.append(("separator-less-iris-after-prefixed", [tuple(u1), tuple(u2), tuple(u1)]))
     # a statement that needs more than 8 names: deep quoted triples in subject and object
     def deep(tag: str) -> tuple:
         return P.t_triple(P.t_iri(tag + ".1"), P.t_iri(tag + ".2"), P.t_triple(P.t_iri(tag + ".3"), P.t_iri(tag + ".4"), P.t_triple(P.t_iri(tag + ".5"), P.t_iri(tag + ".6"), P.t_iri(tag + ".7"))))
